@@ -407,7 +407,7 @@ def run(rep, pdb, tier):
     extra = rule_operands_intact(rep, pdb)
     n = rule_owned_equals_borrowed(rep, pdb)
     rule_clone_independent(rep, pdb)
-    rep.floor("reject/", 130)
+    rep.floor("reject/", 110)
     rep.floor("owned-equals-borrowed/", 24)
     rep.floor("operands-intact/", 100)
     rep.floor("clone-independent/", 6)
